@@ -1,3 +1,48 @@
 //! Safe-Rust verification hooks for this module (accessors/wrappers only; no logic).
 #![allow(missing_docs, unused_imports, dead_code)]
 use super::*;
+
+// ---- statime_h (C44): private timestamp arithmetic and the response collection loop
+pub fn add_correction_hook(ts: Timestamp, correction: TimeInterval) -> Timestamp {
+    add_correction(ts, correction)
+}
+pub fn convert_to_ntp_hook(ts: Timestamp) -> NtpTimestamp {
+    convert_to_ntp(ts)
+}
+/// Opaque wrapper around the private `CsptpRawMeasurement` with field getters.
+pub struct RawMeasurement(pub(crate) CsptpRawMeasurement);
+impl RawMeasurement {
+    pub fn request_send_time(&self) -> Timestamp {
+        self.0.request_send_time
+    }
+    pub fn request_recv_time(&self) -> Timestamp {
+        self.0.request_recv_time
+    }
+    pub fn response_send_time(&self) -> Timestamp {
+        self.0.response_send_time
+    }
+    pub fn response_recv_time(&self) -> Timestamp {
+        self.0.response_recv_time
+    }
+    pub fn request_correction(&self) -> TimeInterval {
+        self.0.request_correction
+    }
+    pub fn response_correction(&self) -> TimeInterval {
+        self.0.response_correction
+    }
+    pub fn leap_indication(&self) -> NtpLeapIndicator {
+        self.0.leap_indication
+    }
+    pub fn has_status(&self) -> bool {
+        self.0.status.is_some()
+    }
+}
+/// Calls the private `CsptpSource::collect_response`.
+pub async fn collect_response_hook<Mutex: StateMutex, Controller: SourceController>(
+    source: &mut CsptpSource<'_, Mutex, Controller>,
+    socket: impl ClientSocket,
+    request_id: u16,
+    send_timestamp: Timestamp,
+) -> RawMeasurement {
+    RawMeasurement(source.collect_response(socket, request_id, send_timestamp).await)
+}
